@@ -87,7 +87,7 @@ TStep == /\ l <= Len(Trace) /\ Trace[l].ev = "step" /\ l' = l + 1
                  /\ st' = [st EXCEPT !.j = FALSE]
             ELSE LET nx == Apply(prog, st, failAt)
                      d == FirstDiff(nx, e)
-                 IN IF d = "none"
+                 IN IF d = "none" \/ ~nx.j      \* a step that consumed an unjudged value (number outside the model) is not judged
                     THEN st' = (IF nx.err # "none" THEN nx ELSE Adopt(nx, e)) /\ UNCHANGED nfail
                     ELSE /\ AddFail(Failure(e, d))
                          /\ st' = [Adopt(nx, e) EXCEPT !.pc = st.pc + 1]
